@@ -39,8 +39,11 @@ int ep_cmp(const ep_t p, const ep_t q) {
 	ep_t r, s;
 	int result = RLC_NE;
 
-	if (ep_is_infty(p) && ep_is_infty(q)) {
-		return RLC_EQ;
+	if (ep_is_infty(p) || ep_is_infty(q)) {
+		/* The cross-multiplication below cannot tell the point at infinity
+		 * (stored with x = y = 0) from the affine point (0, 0), which lies on
+		 * every curve with b = 0. */
+		return (ep_is_infty(p) && ep_is_infty(q)) ? RLC_EQ : RLC_NE;
 	}
 
 	ep_null(r);
